@@ -41,7 +41,7 @@ def rule_module_fields(ctx, R="C08/module-fields"):
         ctx.check(base == ("field", ("param", 2), "start_address") and size == ("field", ("param", 2), "size"), R, "base-size", b.where(0),
                   "base_of_image <- mapping.start_address, size_of_image <- mapping.size", "base/size <- %s / %s" % (show(base), show(size)))
         nm = core(d["module_name_rva"])
-        okn = nm[0] == "field" and nm[2] == "rva" and any(s[0] == "call" and s[1].endswith("write_string_to_location") and any(q[0] == "call" and q[1].endswith("get_mapping_effective_path_name_and_version") and q[2][0] == ("param", 2) for q in walk(s)) for s in walk(nm))
+        okn = nm[0] == "field" and nm[2] == "rva" and any(s[0] == "call" and s[1]== "mem_writer::write_string_to_location" and any(q[0] == "call" and q[1].endswith("get_mapping_effective_path_name_and_version") and q[2][0] == ("param", 2) for q in walk(s)) for s in walk(nm))
         ctx.check(okn, R, "name", b.where(0), "module_name_rva <- string of the effective path of the same mapping", "module_name_rva <- %s" % show(nm)[:160])
         cv = d["cv_record"]
         okcv = True
